@@ -164,13 +164,16 @@ pub fn gen(out: &mut dyn Write, seed: u64, thorough: bool) {
         let h = bits.len() / w;
         let rw = w / (inf.extra_vertical_alignments + 1);
         let rh = h / (inf.extra_horizontal_alignments + 1);
-        let (rows, cols): (Vec<usize>, Vec<usize>) = if thorough || w * h <= 700 {
+        let (rows, cols): (Vec<usize>, Vec<usize>) = if w * h <= (if thorough { 3000 } else { 700 }) {
             ((0..h).collect(), (0..w).collect())
         } else {
             let mut r = vec![0, 1, h - 2, h - 1];
             let mut c = vec![0, 1, w - 2, w - 1];
             for a in 1..=inf.extra_horizontal_alignments { r.push(a * rh - 1); r.push(a * rh); }
             for a in 1..=inf.extra_vertical_alignments { c.push(a * rw - 1); c.push(a * rw); }
+            if thorough {
+                for _ in 0..10 { r.push(rng.below(h)); c.push(rng.below(w)); }
+            }
             (r, c)
         };
         let mut lines: Vec<Vec<usize>> = rows.iter().map(|r| (0..w).map(|j| r * w + j).collect()).collect();
